@@ -47,6 +47,7 @@ let run_group lines =
   let fmt = ref [] and args = ref [] and mem = ref [] and items = ref [] and nstr = ref 0 in
   let kinds = Buffer.create 8 in
   let digits = ref None in
+  let grp = ref None in
   List.iter (fun l ->
     match words l with
     | ["fmt"; h] -> fmt := bytes_of_hex h
@@ -68,7 +69,21 @@ let run_group lines =
       let v = { a_width = z_of_string aw; a_prec = z_of_string ap; a_int = z_of_string ai; a_str = bytes_of_hex astr } in
       items := `Dir (d, v) :: !items
     | ["digits"; v; r; c] -> digits := Some (n_of_string v, n_of_string r, c = "1")
+    | ["grp"; v; w; p; lj; zero; gh; sh] ->
+      let sc b = let x = Int64.to_int (i64_of_n b) in z_of_i64 (Int64.of_int (if x >= 128 then x - 256 else x)) in
+      let sep = bytes_of_hex sh in
+      let loc = { loc_grouping = List.map sc (bytes_of_hex gh); loc_sep = sep;
+                  loc_sep_size = Some (n_of_i64 (Int64.of_int (List.length sep))) } in
+      grp := Some (z_of_string v, z_of_string w, z_of_string p, lj = "1", zero = "1", loc)
     | _ -> ()) lines;
+  match !grp with
+  | Some (v, w, p, lj, zero, loc) ->
+    (match print_int (n_of_i64 64L) v (n_of_i64 10L) w p (n_of_i64 (if zero then 48L else 32L)) lj true false false false loc [] with
+     | Ok o -> print_string ("out " ^ hex_of o ^ "\n")
+     | AssertStop _ -> print_string "end assert\n"
+     | UB w -> print_string ("end ub " ^ ocaml_of_coq_string w ^ "\n")
+     | OutOfFuel -> print_string "end fuel\n")
+  | None ->
   match !digits with
   | Some (v, r, c) ->
     (match print_digits v false r Z0 (Zpos XH) (n_of_i64 32L) false false false false c default_locale [] with
